@@ -48,6 +48,8 @@ def ev(n, env):
         return ev(n[2], env)
     if k == "Lit":
         v = T.lit_value(n)
+        if v is None and n[2] == "null":
+            return 0
         if v is None and n[2] == "float":
             try:
                 return float(str(n[3]).rstrip("fFlL"))
